@@ -315,6 +315,14 @@ impl WorldB {
                 }
             }
             K_GENPAYLOAD => self.gen_payload(op.a as usize % ns, op.b % 2 == 1, (op.c % 1302) as usize, obs),
+            K_GENBURST => {
+                // many payloads at once, so that later deliveries straddle the 256-wide replay window
+                let n = 200 + op.c % 200;
+                obs.count("probe.payload_burst_wider_than_replay_window");
+                for _ in 0..n {
+                    self.gen_payload(op.a as usize % ns, op.b % 2 == 1, 9, obs);
+                }
+            }
             K_CLIENTDISC => {
                 let slot = op.a as usize % ns;
                 let s = &mut self.slots[slot];
